@@ -464,6 +464,10 @@ def config_list_pass(rep, variant):
                     rep.add_violation({"signature": "C07|config|%s|advertised-list-differs-from-the-configured-restriction|%s" % (tag, "mechanisms-not-removed" if extra else "mechanisms-missing"),
                                        "detail": {"slots.mechanisms": c2, "first_configuration": c1, "advertised_but_excluded": [C.CKM_NAMES.get(x, hex(x)) for x in extra][:12], "allowed_but_missing": [C.CKM_NAMES.get(x, hex(x)) for x in missing][:12]},
                                        "history": [], "action": None, "variant": variant, "store": "file", "replay_module": "c07_usage", "config_tag": tag, "property": "C07"})
+        # softhsm2.conf(5): "Anything after the hash sign will be ignored" - a comment may follow the list with or without a blank in between
+        variants.append(("negative-list-with-comment-touching-the-last-name", "-" + ",".join(names) + "# disabled on purpose", full - named))
+        variants.append(("negative-list-with-comment-after-blank", "-" + ",".join(names) + " # disabled on purpose", full - named))
+        variants.append(("positive-list-with-comment-touching-the-last-name", ",".join(pos_names) + "#only these", full & pos))
         variants.append(("positive-list-with-repeated-name", ",".join(pos_names + pos_names[:1]), full & pos))
         variants.append(("positive-list-with-repeated-name-first", ",".join(pos_names[-1:] + pos_names), full & pos))
         for tag, conf, want in variants:
